@@ -51,9 +51,10 @@ theorem pybody_gbernsen_rule_aux (a b c ct g : Int) :
     the order "contrast below the threshold → mid-grey against `gthresh`, otherwise mid-grey against the pixel", the
     mid-grey is `fmax/2 + fmin/2`, the contrast `fmax − fmin`. For all images, elements, thresholds and pixels. -/
 theorem pybody_thresholding_gbernsen_eq_model {X S : Type} (f : X → Int) (rk : (X → Rat) → S → X → Int → Int)
-    (n : S → Int) (se : S) (ct g : Int) (ofInt : Int → Rat) (flit : Nat → Nat → Rat) (p : X) :
+    (n : S → Int) (se : S) (ct g : Int) (ofInt : Int → Rat) (flit : Nat → Nat → Rat) (p : X)
+    (cs : Rat → S) (gb : (X → Rat) → S → Rat → Rat → X → Bool) :
     thresholding_gbernsen (K := Rat) (fun k => (k : Rat)) ofInt flit
-        { rank_filter := fun fl s r q => ((rk fl s q r : Int) : Rat), se_sum := n }
+        { rank_filter := fun fl s r q => ((rk fl s q r : Int) : Rat), se_sum := n, circle_se := cs, gbernsen := gb }
         (fun q => (f q : Rat)) se (ct : Rat) (g : Rat) p
       = bernsenRule (rk (fun q => (f q : Rat)) se p (n se - 1)) (rk (fun q => (f q : Rat)) se p 0) (f p) ct (2 * g) := by
   simp only [thresholding_gbernsen]
@@ -62,6 +63,33 @@ theorem pybody_thresholding_gbernsen_eq_model {X S : Type} (f : X → Int) (rk :
 /-- non-vacuity: both arms of the rule are taken and give different answers -/
 example :
     bernsenRule 10 2 7 5 12 = false ∧ bernsenRule 10 2 7 9 14 = true ∧ bernsenRule 10 2 5 5 12 = true := by decide
+
+/-- `thresholding.bernsen` (current source): `gbernsen` on `circle_se(radius)` with the global threshold defaulting to 128.
+    With the `gbernsen` primitive instantiated by the generated `thresholding_gbernsen` itself, the result at pixel `p` is
+    `bernsenRule` with `g2 = 2·gthresh`, `g2 = 256` when `gthresh` is omitted. -/
+theorem pybody_thresholding_bernsen_eq_model {X S : Type} (f : X → Int) (rk : (X → Rat) → S → X → Int → Int)
+    (n : S → Int) (cs : Rat → S) (radius : Rat) (ct : Int) (g : Option Int) (ofInt : Int → Rat) (flit : Nat → Nat → Rat)
+    (p : X) (gb : (X → Rat) → S → Rat → Rat → X → Bool) :
+    let P0 : ThreshPrims Rat X S :=
+      { rank_filter := fun fl s r q => ((rk fl s q r : Int) : Rat), se_sum := n, circle_se := cs, gbernsen := gb }
+    thresholding_bernsen (K := Rat) (fun k => (k : Rat)) ofInt flit
+        { P0 with gbernsen := thresholding_gbernsen (K := Rat) (fun k => (k : Rat)) ofInt flit P0 }
+        (fun q => (f q : Rat)) radius (ct : Rat) (g.map fun z => (z : Rat)) p
+      = bernsenRule (rk (fun q => (f q : Rat)) (cs radius) p (n (cs radius) - 1))
+          (rk (fun q => (f q : Rat)) (cs radius) p 0) (f p) ct (2 * g.getD 128) := by
+  intro P0
+  cases g with
+  | none =>
+    have h := pybody_thresholding_gbernsen_eq_model f rk n (cs radius) ct 128 ofInt flit p cs gb
+    simp only [thresholding_bernsen, Option.getD_none]
+    rw [← h]
+    norm_num
+    rfl
+  | some z =>
+    have h := pybody_thresholding_gbernsen_eq_model f rk n (cs radius) ct z ofInt flit p cs gb
+    simp only [thresholding_bernsen, Option.getD_some]
+    rw [← h]
+    rfl
 
 /-- the primitives of the `otsu` wrapper as the C16 model has them: `fullhistogram` is the model's histogram (as a
     list), `np.asanyarray(hist, dtype=np.double)` keeps the values (counts are exact in a double below 2^53),
